@@ -24,7 +24,7 @@ def bid(p):
 
 
 def trace(P, fname, page_type, has_crc, verify, stored_crc, computed_crc, codec, levels=True, num_values=10,
-          encoding=0, avail=100000):
+          encoding=0, avail=100000, current_page=0):
     fn = P.fn(fname, PR)
     ro = sem.field_offsets(P, "carquet_column_reader")
     fo = sem.field_offsets(P, "carquet_reader")
@@ -37,7 +37,7 @@ def trace(P, fname, page_type, has_crc, verify, stored_crc, computed_crc, codec,
     own = P.enum("carquet_data_ownership") if "carquet_data_ownership" in P.enums else {}
     pt = P.enum("carquet_physical_type")
     heap0 = {("rd", ro["file_reader"]): Ptr("fr", 0, 1), ("rd", ro["col_meta"]): Ptr("cm", 0, 1),
-             ("rd", ro["has_dictionary"]): 1, ("rd", ro["data_start_offset"]): DATA_OFF, ("rd", ro["current_page"]): 0,
+             ("rd", ro["has_dictionary"]): 1, ("rd", ro["data_start_offset"]): DATA_OFF, ("rd", ro["current_page"]): current_page,
              ("rd", ro["type"]): pt["CARQUET_PHYSICAL_INT32"], ("rd", ro["type_length"]): 0,
              ("rd", ro["max_def_level"]): 1 if levels else 0, ("rd", ro["max_rep_level"]): 0,
              ("rd", ro["decoded_ownership"]): own.get("CARQUET_DATA_OWNED", 0), ("rd", ro["decoded_capacity"]): 100000,
@@ -94,4 +94,8 @@ def trace(P, fname, page_type, has_crc, verify, stored_crc, computed_crc, codec,
         hooks["carquet_%s_decompress" % st] = codec_hook(st)
     ret, ev, heap = sem.run(P, fn, [Ptr("rd", 0, 1), 0], heap0=heap0, hooks=hooks, single=True, max_forks=64, budget=200000)
     view = heap.get(("rd", ro["decoded_values"]))
-    return ret, ev, {"decoded_values": bid(view), "page_loaded": heap.get(("rd", ro["page_loaded"]))}
+    return ret, ev, {"decoded_values": bid(view), "page_loaded": heap.get(("rd", ro["page_loaded"])),
+                     "data_start_offset": heap.get(("rd", ro["data_start_offset"])),
+                     "page_header_size": heap.get(("rd", ro["page_header_size"])),
+                     "page_compressed_size": heap.get(("rd", ro["page_compressed_size"])),
+                     "page_num_values": heap.get(("rd", ro["page_num_values"]))}
